@@ -1,13 +1,46 @@
-(* C09 — minimum path covers: the cover rows force every non-ignored edge into some layer
-   (each layer being one route by C01).  Weak duality / certificate optimality are restated here when
-   Cover.v is merged. *)
+(* C09 — minimum path/walk covers; width equals the optimum. *)
 From Coq Require Import List NArith ZArith QArith Bool Arith Lia.
 Import ListNotations.
-From FP Require Import Lin Blocks BlocksProofs PathEnc PathEncProofs.
+From FP Require Import Lin Blocks BlocksProofs PathEnc PathEncProofs Reach Cover CoverProofs Search SearchProofs1 SearchProofs2.
 Local Close Scope Q_scope.
-Theorem C09_cover_rows_cover_every_nonignored_edge : forall (I : path_inst) (ignore : list edge) (a : var -> Q),
+
+(* the cover rows force every non-ignored edge into some layer; each layer is one route (C01) *)
+Theorem C09_cover_rows_cover_every_nonignored_edge : forall (I : path_inst) (ignore : list PathEnc.edge) (a : var -> Q),
   sat a (encode_kpc I ignore) ->
   forall e, In e (g_edges (p_graph I)) -> mem_edge e ignore = false ->
   exists i, In i (layers (p_k I)) /\ xval a i e = 1%Z.
 Proof. exact kpc_covers. Qed.
 Print Assumptions C09_cover_rows_cover_every_nonignored_edge.
+
+(* weak duality, abstract in the route type: serves paths and walks *)
+Theorem C09_weak_duality : forall (Ed Rt : Type) (on : Ed -> Rt -> bool) (admissible : Rt -> Prop)
+  (w : Ed -> Z) (dom A : list Ed) (P : list (Rt * Z)),
+  antichain Ed Rt on admissible A -> incl A dom -> covers Ed Rt on admissible w dom P -> (zsum w A <= size Rt P)%Z.
+Proof. exact weak_duality. Qed.
+Print Assumptions C09_weak_duality.
+
+(* a cover and an antichain of equal size certify each other's optimality *)
+Theorem C09_certificate_optimal : forall (Ed Rt : Type) (on : Ed -> Rt -> bool) (admissible : Rt -> Prop)
+  (w : Ed -> Z) (dom A : list Ed) (P0 : list (Rt * Z)),
+  antichain Ed Rt on admissible A -> incl A dom -> covers Ed Rt on admissible w dom P0 -> zsum w A = size Rt P0 ->
+  (forall P, covers Ed Rt on admissible w dom P -> (size Rt P0 <= size Rt P)%Z) /\
+  (forall A', antichain Ed Rt on admissible A' -> incl A' dom -> (zsum w A' <= zsum w A)%Z).
+Proof. exact certificate_opt. Qed.
+Print Assumptions C09_certificate_optimal.
+
+(* the executable certificate checker run on the implementation's answers *)
+Theorem C09_checked_certificate_proves_the_optimum : forall V E s t W A P, certificate_ok V E s t W A P = true ->
+  antichain_weight W A = cover_size P /\
+  (forall P', covers Reach.edge (list node) on_route (st_route E s t) (wt W) E P' -> (cover_size P <= size (list node) P')%Z) /\
+  (forall A', antichain_ok V E A' = true -> (antichain_weight W A' <= antichain_weight W A)%Z).
+Proof. exact certificate_ok_opt. Qed.
+Print Assumptions C09_checked_certificate_proves_the_optimum.
+
+(* the minimum search over k *)
+Theorem C09_search_returns_least_feasible_k : forall (feasible : nat -> bool) (lb ub kopt : nat) (sts : list raw),
+  (forall i, (i < ub - lb)%nat -> exists x, nth_error sts i = Some x /\
+             status_of x = if feasible (lb + i)%nat then Optimal else Infeasible) ->
+  feasible kopt = true -> (forall k, (k < kopt)%nat -> feasible k = false) -> (lb <= kopt < ub)%nat ->
+  so_res (mpc_solve true lb ub sts) = Solved kopt.
+Proof. exact search_min. Qed.
+Print Assumptions C09_search_returns_least_feasible_k.
